@@ -797,3 +797,47 @@ void harness_race(void)
 		VERIF_WITNESS("race: cancel lands after the receiver's read-modify-write (executed, anti pending) reachable");
 }
 #endif
+
+/* ---------------- LP life cycle in process.c ---------------- */
+void harness_lp_fini(void)
+{
+	mk_history(true);
+	uint32_t f0[H];
+	for(unsigned k = 0; k < H; k++)
+		f0[k] = M[k]->raw_flags;
+	/* remote events in the history carry an id instead of small flags: they are released too */
+	process_lp_fini(LP);
+	VERIF_ASSERT(n_disp == 1 && disp[0].type == LP_FINI && disp[0].me == 1 && disp[0].st == LP->state_pointer && disp[0].size == 0, "fini: LP_FINI is dispatched exactly once, with the LP's state");
+	for(unsigned k = 0; k < H; k++) {
+		if(k >= n_hist)
+			continue;
+		if(kind[k] == 1)
+			VERIF_ASSERT(!fr[k], "fini: a locally sent buffer belongs to its receiver and is not released by the sender");
+		else if(kind[k] == 2)
+			VERIF_ASSERT(fr[k] == 1, "fini: a remotely sent buffer is released exactly once");
+		else
+			VERIF_ASSERT(fr[k] == ((f0[k] & MSG_FLAG_ANTI) ? 0U : 1U), "fini: a processed event is released exactly once, unless its sender cancelled it (then the queued anti-message copy is released by the queue)");
+		VERIF_ASSERT(!ins[k] && !ranti[k], "fini: nothing is queued or sent at shutdown");
+	}
+	VERIF_ASSERT(unknown_ops == 0, "fini: no other buffer is touched");
+	VERIF_WITNESS("lp fini end reachable");
+}
+
+void harness_lp_init(void)
+{
+	mk_history(true); /* only for the environment set-up; the LP starts from scratch */
+	model_sends = vin_upto(NNEW - 1); /* one fresh buffer is the LP_INIT event itself */
+	send_dest = vin_upto(1);
+	LP->auto_ckpt.ckpt_interval = 1 + vin_upto(2);
+	process_lp_init(LP);
+	unsigned cnt = array_count(LP->p.p_msgs);
+	VERIF_ASSERT(n_disp == 1 && disp[0].type == LP_INIT && disp[0].me == 1 && disp[0].t == 0.0 && disp[0].size == 0, "init: LP_INIT is dispatched exactly once, at time 0");
+	VERIF_ASSERT(cnt == model_sends + 1 && !is_msg_sent(hist_at(cnt - 1)) && (hist_at(cnt - 1)->raw_flags & MSG_FLAG_PROCESSED) && hist_at(cnt - 1)->m_type == LP_INIT,
+	    "init: the history starts with the events scheduled at LP_INIT followed by the LP_INIT event itself, marked processed");
+	for(unsigned k = 0; k < NNEW; k++)
+		if(k < model_sends)
+			VERIF_ASSERT(is_msg_local_sent(hist_at(k)) && ins[idx_of(unmark_msg(hist_at(k)))] == 1, "init: events scheduled at LP_INIT are queued exactly once and recorded as sent");
+	VERIF_ASSERT(n_take == 1 && take_ref == cnt, "init: the first checkpoint is taken right after LP_INIT, so every later rollback finds one");
+	VERIF_ASSERT(LP->p.bound == 0.0 && LP->p.early_antis == NULL && current_lp == LP, "init: time bound 0, no early anti-messages");
+	VERIF_WITNESS("lp init end reachable");
+}
